@@ -303,18 +303,11 @@ Qed.
 Lemma decimal_guards_bounds : forall p s,
   run_guards p s decimal_guards = None <-> (s <= p /\ p <= 38).
 Proof.
+  (* independent of how the guards are spelt in the source (38 < p, p >= 39, ...): case split on
+     every guard condition, arithmetic by lia *)
   intros p s. unfold decimal_guards. cbn [run_guards existsb dcmp_holds dterm_val].
-  split.
-  - intros H.
-    destruct ((Z.of_N p <? 0)%Z || ((Z.of_N p >? 38)%Z || false)) eqn:E1; [discriminate|].
-    destruct ((Z.of_N s <? 0)%Z || ((Z.of_N s >? 38)%Z || false)) eqn:E2; [discriminate|].
-    destruct ((Z.of_N p <? Z.of_N s)%Z || false) eqn:E3; [discriminate|].
-    lia.
-  - intros [H1 H2].
-    replace ((Z.of_N p <? 0)%Z || ((Z.of_N p >? 38)%Z || false)) with false by lia.
-    replace ((Z.of_N s <? 0)%Z || ((Z.of_N s >? 38)%Z || false)) with false by lia.
-    replace ((Z.of_N p <? Z.of_N s)%Z || false) with false by lia.
-    reflexivity.
+  repeat match goal with |- context [if ?b then _ else _] => destruct b eqn:? end;
+    (split; intros H; [try discriminate H; lia | try reflexivity; exfalso; lia]).
 Qed.
 
 Lemma decimal_guards_exn : forall p s e, run_guards p s decimal_guards = Some e -> e = ValueError.
